@@ -251,7 +251,7 @@ def init_flag_cases():
     forms before anything has called SetReduce / SetNoReduce, on inputs whose first candidate is not coprime"""
     cases = []
     for f, m, k, c in grid_triples():
-        if c in ("first", "num0-ok") or m > (1 << 16): continue
+        if c in ("first", "first-no-iteration", "zero", "num0-ok") or m > (1 << 16): continue
         for x in (f, f - m, f + m):
             for rc in (0, 1):
                 for v in ("ctor.init", "qfk.init") + (("qf.init",) if k == isqrt(m) else ()):
@@ -281,9 +281,13 @@ def grid_triples():
             for f in cands:
                 if not 0 <= f < m: continue
                 c = branch_class(f, m, k)
+                # "first" means a non-trivial first-candidate success: residue not 0 (mod m) and at least one loop iteration
+                # (f >= k); f = 0 (the x == 0 shortcut of the 7-argument wrapper, 0/1) is kept as its own class "zero"
+                if c == "first" and f == 0: c = "zero"
+                elif c == "first" and f < k: c = "first-no-iteration"
                 if c not in seen:
                     seen[c] = f
-                if len(seen) == 5: break
+                if len(seen) == 7: break
             for c, f in sorted(seen.items()):
                 out.append((f, m, k, c))
     return out
@@ -304,14 +308,14 @@ def grid_cases(tier):
             # quick: each triple goes to every non-aliased form, and to one aliased form in rotation
             if ".al" in v and tier == "quick" and (vi + idx) % 6 != 0: continue
             if m.bit_length() > 64 and tier == "quick" and (vi + idx) % 3 != 0: continue
-            if tier == "quick" and c in ("first", "num0-fail", "num0-ok") and m > 1000 and (vi + idx) % 3 != 1: continue
+            if tier == "quick" and c in ("first", "first-no-iteration", "zero", "num0-fail", "num0-ok") and m > 1000 and (vi + idx) % 3 != 1: continue
             full = [None, m, k] if op != "qf" else [None, m]
             if op == "qf" and k != isqrt(m): continue
             nflags = nargs - len(full)
             for ri, x in enumerate(reps):
                 # quick: the five representatives rotate over (triple, form); all five for the tiny moduli and in the thorough tier
                 if tier == "quick" and m > 1000 and ri != (vi + idx) % 5: continue
-                if tier == "quick" and m <= 1000 and c == "first" and ri not in (0, 2, 3): continue
+                if tier == "quick" and m <= 1000 and c in ("first-no-iteration", "zero") and ri not in (0, 2, 3): continue
                 for bits in range(1 << nflags):
                     ia = [x] + full[1:] + [(bits >> j) & 1 for j in range(nflags)]
                     cases.append((v, op, ia, mp(list(ia)), None, "grid-" + c, "grid"))
@@ -413,15 +417,14 @@ def spec_check(op, a, out, extra=None):
             if not d > 0: bad.append((kl, "den <= 0"))
             if math.gcd(n, d) != 1: bad.append((kl, "gcd(num,den) != 1"))
     elif op == "rr6":
+        # the property's clauses against the CALLER's bounds (header: numbound, denbound), not against a bound the code derives
         f, m, ab, bb = a
-        if not (m >= 2 and ab >= 1 and bb >= 1): return bad
-        k = max((abs(f) // bb) * (1 if f >= 0 else -1), ab)      # x/b_bound truncates
-        if not 1 <= k <= m: return bad
+        if not (m >= 2 and 1 <= ab <= m and bb >= 1): return bad
         if ok:
             kl = "in-domain"
             if (n - d * f) % m != 0: bad.append((kl, "num != den*f (mod m)"))
-            if not abs(n) < k: bad.append((kl, "|num| >= max(a_bound, f/b_bound)"))
-            if not 0 < d <= bb: bad.append((kl, "den not in (0, b_bound]"))
+            if not abs(n) < ab: bad.append(("numbound", "|num| >= numbound"))
+            if not 0 < d <= bb: bad.append((kl, "den not in (0, denbound]"))
             if math.gcd(n, d) != 1: bad.append(("unreduced", "gcd(num,den) != 1 (the result of ratrecon is ignored)"))
     elif op in ("ctor", "qfk", "qf"):
         # no success report: the pair always satisfies the congruence with den > 0; and when the reconstruction these
@@ -501,7 +504,7 @@ def gen_cases(rng, tier, chk):
         cases.append((v, op, ia, mp(list(ia)), frac, fclass, mclass))
     # exhaustive small block: every (m, f, k) with m <= M0, f in [-m, 2m], k in [1, m]
     M0 = 14 if tier == "quick" else 40
-    for m in range(2, M0 + 1):
+    for m in range(1, M0 + 1):          # m = 1 is outside the property's quantifier: compared with the model only
         for f in range(-m, 2 * m + 1):
             for k in range(1, m + 1):
                 for fr in (0, 1):
@@ -784,6 +787,56 @@ def run_parallel(binary, lines, nproc, timeout=2400, args=()):
     return 0, res, ""
 
 
+def run_impl(himpl, lines, timeout):
+    """run the implementation harness on the case lines.  Returns (outputs, status): outputs[i] is the line of case i,
+    "DOES-NOT-RETURN" when the case exceeded its CPU budget twice (20 s inside the stream, then 60 s alone), None when it was
+    not reached; status is "ok", "timeout" (wall-clock limit of the whole stream: inconclusive for the cases not reached) or
+    an error text (harness died for another reason)."""
+    out = [None] * len(lines)
+    pos, restarts, t_end = 0, 0, time.time() + timeout
+    while pos < len(lines):
+        left = t_end - time.time()
+        if left <= 5:
+            return out, "timeout"
+        rc, o, err = vf.run_lines(himpl, "".join(lines[pos:]), timeout=left)
+        stuck = rc == 42 and o and o[-1].strip() == "DOES-NOT-RETURN"
+        good = o[:-1] if stuck else o
+        if rc == 124 and good:
+            good = good[:-1]          # the last line of a killed process may be torn
+        out[pos:pos + len(good)] = good
+        pos += len(good)
+        if rc == 0 and pos == len(lines):
+            return out, "ok"
+        if rc == 124 and "[timeout]" in err:
+            return out, "timeout"
+        if stuck and pos < len(lines):
+            # the case at `pos` did not return within the CPU budget: once more, alone, with a larger budget
+            env_old = os.environ.get("C11_CASE_CPU")
+            os.environ["C11_CASE_CPU"] = "60"
+            try:
+                rc1, o1, e1 = vf.run_lines(himpl, lines[pos], timeout=max(30, t_end - time.time()))
+            finally:
+                if env_old is None: os.environ.pop("C11_CASE_CPU", None)
+                else: os.environ["C11_CASE_CPU"] = env_old
+            if rc1 == 0 and len(o1) == 1:
+                out[pos] = o1[0]
+            elif rc1 == 42:
+                out[pos] = "DOES-NOT-RETURN"
+            elif rc1 == 124:
+                return out, "timeout"
+            else:
+                return out, "harness died on case %d alone (rc=%s) %s" % (pos, rc1, e1[-200:])
+            pos += 1
+            restarts += 1
+            if restarts >= 3 and sum(1 for x in out if x == "DOES-NOT-RETURN") >= 3:
+                return out, "hang-limit"       # three concrete non-returning inputs are enough; the rest is not run
+            if restarts > 25:
+                return out, "more than 25 cases needed a second run"
+            continue
+        return out, "harness failed (rc=%s, %d/%d lines) %s" % (rc, pos, len(lines), err[-300:])
+    return out, "ok"
+
+
 def main(tier, replay=None):
     chk = vf.Check("C11", tier, "proof")
     rng = vf.Rng(chk.seed)
@@ -791,8 +844,8 @@ def main(tier, replay=None):
         "Coq 8.16.1 kernel",
         "extraction: ExtrOcamlBasic only; Z/positive/nat kept as extracted inductives; OCaml 4.13.1; zarith only for text I/O in harness/zio.ml",
         "Integer primitives used by the code (tdiv_q, tdiv_r, mpz_mod, submul, gcd, sqrt, compare) are given their GMP meaning on Z in Model.v (Z.quot, Z.rem, Z.modulo, Z.gcd, Z.sqrt); validated by the correspondence run",
-        "polynomial primitives (degree, assign, divmodin, maxpyin, gcd, leadcoef, divin) are the models of Poly1Dom of coq/C08 (hand-written after the C++, owned by property C08); the ring laws, the division identity and the product/threshold theorems used by C11_list_ratrecon_sound are C08's theorems, the degree laws are proved in coq/C11/PolyLists.v; the extracted instance runs over C08.Model.ZpDom p (integers mod p): that ZpDom p satisfies the field laws FieldOK on [0,p) for prime p is NOT proved (it fails outside [0,p) for Leibniz equality on Z) - the theorem is stated for every domain satisfying FieldOK (satisfiable: GF2Dom)",
-        "that the fuel deg P + deg M + 4 suffices for the list instance (deg(remainder) < deg(divisor) for the Newton-inverse division) is not proved; a model running out of fuel is reported as a broken obligation",
+        "polynomial primitives (degree, assign, divmodin, maxpyin, gcd, leadcoef, divin) are the models of Poly1Dom of coq/C08 (hand-written after the C++, owned by property C08); the ring laws, the division identity, the degree bound of the division and the product/threshold theorems used by the list theorems are C08's, the degree laws are proved in coq/C11/PolyLists.v; the extracted instance runs over C08.Fp.FpDom q (subset type of canonical residues, FieldOK proved for prime q in C08.ProofsFp): C11_fp_ratrecon_sound / _total are about exactly the extracted functions",
+        "that C08's gcd model computes a gcd is not proved: polynomial reducedness is judged by the oracle only",
         "harness/c11_ratrecon.C, checks/C11.py (generators, python oracles)",
         "g++ / x86-64 / GMP for the implementation side",
     ]
@@ -855,7 +908,26 @@ def main(tier, replay=None):
         chk.notes.append("inconclusive: the harness timed out printing its constants; thresholds 50/50 assumed")
     else:
         chk.broke("tie: the harness did not print the constants of the compiled implementation", "rc=%s out=%r %s" % (rc, cout[:2], cerr[-300:]))
+    # which body of the 6-argument RationalReconstruction is in the source NOW (read on every run): the one with
+    # `bound = x/bb` (model RR6; finding ratrecon:rr6/numbound) or the repaired one of frag/C11.fix-2.diff (model RR6f)
+    rr6_repaired = False
+    try:
+        txt = open(os.path.join(vf.REPO, "src/kernel/rational/givratreconstruct.C")).read()
+        i = txt.find("a_bound, const Integer& b_bound)")
+        body = txt[i:txt.find("\n    }", i)] if i >= 0 else ""
+        import re
+        if re.search(r"bound\s*=\s*x\s*/", body): rr6_repaired = False
+        elif re.search(r"ratrecon\s*\(\s*a\s*,\s*b\s*,\s*x\s*,\s*m\s*,\s*a_bound\s*,", body): rr6_repaired = True
+        else: chk.notes.append("tie: body of RationalReconstruction(a,b,x,m,a_bound,b_bound) not recognised; compared with the model of the x/bb body")
+    except OSError as ex:
+        chk.broke("tie: cannot read givratreconstruct.C", repr(ex))
+    chk.cov["rr6_body"] = "repaired (numerator bound = a_bound; model RR6f)" if rr6_repaired else "bound = max(x/b_bound, a_bound) (model RR6; known finding numbound)"
     cases = gen_cases(rng, tier, chk)
+    if rr6_repaired:      # b_bound = 0 no longer divides by zero: drive it (plain failure expected)
+        for m in GRID_MODULI[:6]:
+            for f in (0, 1, m // 2, m - 1, m + 3):
+                for v in ("rr6.static", "rr6.zring", "rr6.al3", "rr6.al7"):
+                    cases.append((v, "rr6", [f, m, max(1, isqrt(m)), 0], [f, m, max(1, isqrt(m)), 0], None, "rr6-denbound-0", "grid"))
     # polynomial cases: (variant, op for the model, impl args, model args, frac, fclass, mclass, extra)
     npoly = 2500 if tier == "quick" else 120000
     pcases = []
@@ -879,6 +951,33 @@ def main(tier, replay=None):
                     for v, fr in (("poly.rr5", 1), ("poly.check", 0), ("poly.rr6", 0), ("poly.rr6", 1)):
                         args = [p, dk, fr, len(P)] + P + [len(M)] + M
                         pcases.append((v, v, args, args, None, "exhaustive", "p=%d" % p, (p, dk, fr, P, M)))
+    # degenerate moduli (outside the property's domain deg M >= 1, compared with the model only): the branches `degV == 0` and
+    # `degV < 0` of the early exits: M a non-zero constant, M = 0 (empty and [0]), every polynomial call form
+    for p in (2, 101):
+        for M in ([], [0], [1], [3 % p or 1], [5 % p, 0]):
+            for P in ([], [1], [2 % p or 1, 1], [0, 0, 1], [1, 0]):
+                for dk in (0, 1):
+                    for v in POLY_FORMS:
+                        if ".al" in v and (len(M) + len(P) + dk + POLY_FORMS.index(v)) % 3: continue
+                        args = [p, dk, 1, len(P)] + P + [len(M)] + M
+                        pcases.append((v, poly_model_op(v), args, args, None, "degenerate-modulus", "p=%d" % p, (p, dk, 1, P, M)))
+    # sizes above KARA_THRESHOLD / SQR_THRESHOLD (read from the implementation): the Karatsuba branches of the products inside
+    # divmodin / maxpyin are taken (fixed generator state: the same inputs on every run)
+    krng = vf.Rng(20261002)
+    for j in range(4 if tier == "quick" else 24):
+        p = (65521, 101, 2, 67108859)[j % 4]
+        dM = 2 * max(kthr, sthr, 8) + 24 + 3 * j
+        dk = dM // 2 - (j % 3)
+        M = rand_poly(krng, p, dM, monic=(j % 2 == 0))
+        A, B = rand_poly(krng, p, dk - (j % 2)), rand_poly(krng, p, dM - dk - 1, monic=True)
+        Bi = pinvmod(B, M, p)
+        if Bi is None: continue
+        P = pdivmod(pmul(A, Bi, p), M, p)[1]
+        if j % 4 == 3: P = padd(P, pmul(M, [1, 1], p), p)
+        frac0 = (A, B) if len(pgcd(A, B, p)) == 1 else None
+        for v, fr in (("poly.rr5", 0), ("poly.rr6", 1), ("poly.checkd", 0)):
+            args = [p, dk, fr, len(P)] + P + [len(M)] + M
+            pcases.append((v, poly_model_op(v), args, args, frac0, "karatsuba-size", "p=%d" % p, (p, dk, fr, P, M)))
     # deterministic call-form block: fixed (p, M, A/B or P, dk) x representatives of the residue (reduced; + c*M: degree equal to
     # deg M; + (X^2+7)*M: degree above; zero leading entries) x every polynomial call form incl. the aliased ones x both flags
     for (p, M, src, dk) in POLY_GRID:
@@ -901,40 +1000,52 @@ def main(tier, replay=None):
     if replay:
         allc = cases_from_replay(replay)
         chk.notes.append("replay of %d cases from %s" % (len(allc), replay))
-    impl_in = "".join("%s %s\n" % (c[0], " ".join(str(x) for x in c[2])) for c in allc)
-    model_in = ["%s %s\n" % (c[1], " ".join(str(x) for x in c[3])) for c in allc]
+    model_in = ["%s %s\n" % ("rr6f" if (c[1] == "rr6" and rr6_repaired) else c[1], " ".join(str(x) for x in c[3])) for c in allc]
     vf.log("C11: generation done %.1fs" % (time.time() - chk.t0))
-    rc, iout, ierr = vf.run_lines(himpl, impl_in, timeout=2400)
-    if rc == 124 and "[timeout]" in ierr:
-        # a time-out of our own tooling (machine load) is an inconclusive stream, not a violation of the property
-        chk.notes.append("INCONCLUSIVE: the implementation harness did not finish %d cases within 2400 s (machine load); no case judged" % len(allc))
-        chk.cov["inconclusive"] = ["implementation harness time-out"]
-        return chk.finish()
-    if rc != 0 or len(iout) != len(allc):
-        bad = allc[len(iout)] if len(iout) < len(allc) else None
-        chk.broke("implementation harness failed (rc=%s, %d/%d lines); next case: %s" % (rc, len(iout), len(allc), bad and (bad[0], bad[2])), ierr)
+    impl_lines = ["%s %s\n" % (c[0], " ".join(str(x) for x in c[2])) for c in allc]
+    iout, istatus = run_impl(himpl, impl_lines, 2400)
+    inconclusive = []
+    if istatus == "timeout":
+        # a wall-clock time-out of our own tooling (machine load) is an inconclusive stream, not a violation: the cases that
+        # were answered are judged, the others are counted as NOT compared (floors below)
+        n_done = sum(1 for x in iout if x is not None)
+        inconclusive.append("implementation harness: wall-clock limit 2400 s reached after %d of %d cases" % (n_done, len(allc)))
+    elif istatus == "hang-limit":
+        n_done = sum(1 for x in iout if x is not None)
+        inconclusive.append("implementation harness: stopped after three cases that do not return (reported as failing inputs); %d of %d cases run" % (n_done, len(allc)))
+    elif istatus != "ok":
+        bad = next((allc[i] for i, x in enumerate(iout) if x is None), None)
+        chk.broke("implementation %s; next case: %s" % (istatus, bad and (bad[0], bad[2])))
         return chk.finish()
     mout = None
     if drv:
         rc, mout, merr = run_parallel(drv, model_in, 6 if tier == "quick" else 12, args=[str(kthr), str(sthr)])
         if rc == 124 and "[timeout]" in merr:
-            chk.notes.append("INCONCLUSIVE: the extracted model did not finish within its time limit (machine load); correspondence not judged, specification oracle judged")
-            chk.cov["inconclusive"] = ["model driver time-out"]
+            inconclusive.append("model driver: wall-clock limit reached; correspondence NOT judged on any case (specification oracle judged)")
             mout = None
         elif rc != 0 or len(mout) != len(allc):
             chk.broke("model driver failed (rc=%s, %d/%d lines)" % (rc, len(mout), len(allc)), merr)
             mout = None
     vf.log("C11: impl+model runs done %.1fs" % (time.time() - chk.t0))
     ncorr = 0
+    norac = {"integer": 0, "polynomial": 0}
     stats = {}
     def st(key):
         stats[key] = stats.get(key, 0) + 1
     for i, (v, op, ia, ma, frac, fclass, mclass, pc) in enumerate(allc):
         case = {"variant": v, "args": [str(x) for x in ia]}
         st("variant/" + v); st("modulus/" + mclass); st("residue/" + ("poly-" if pc else "") + fclass)
+        if iout[i] is None:           # not reached before the wall-clock limit: not compared, not counted
+            st("not-compared/harness-time-out")
+            continue
         if i % 1499 == 0:
             chk.sample({"variant": v, "args": [str(x) for x in ia][:24], "impl": iout[i][:200]})
         nfail = len(chk.failing)
+        if iout[i].strip() == "DOES-NOT-RETURN":
+            site = ("polyratrecon:" + op[5:]) if pc is not None else ("ratrecon:" + VARIANTS[v][0])
+            chk.fail_input(site, "does-not-return", case, "the call returns", "no return within 20 s of CPU time in the stream and 60 s alone",
+                           "the call does not return (per-case CPU watchdog of the harness)")
+            continue
         if pc is not None:
             # ---------------- polynomial case
             out = parse_poly_out(iout[i])
@@ -942,6 +1053,7 @@ def main(tier, replay=None):
             if out is None:
                 chk.broke("unparsable implementation output on %s %s: %r" % (v, ia, iout[i]))
                 continue
+            norac["polynomial"] += 1
             site = "polyratrecon:" + op[5:]      # op = model op: rr5 / check / rr6 (storage type and aliasing suffixes stripped)
             for klass, msg in poly_spec(v, pc, out):
                 chk.fail_input(site, klass, case, msg, iout[i], msg)
@@ -978,6 +1090,7 @@ def main(tier, replay=None):
             if out[2] == ma[3]: st("rr6/den==b_bound")
             elif out[2] == ma[3] + 1: st("rr6/den==b_bound+1")
         # specification
+        norac["integer"] += 1
         for klass, msg in spec_check(op, ma, out, parse_extra(iout[i])):
             chk.fail_input("ratrecon:" + VARIANTS[v][0], klass, case, msg, iout[i], msg)
         exp = spec_complete(op, ma, frac, out)
@@ -1011,7 +1124,27 @@ def main(tier, replay=None):
                        "exhaustive (m,f,k) block for small m; envelope enumeration b <= 64.  polynomials over F_p, p in %s: M random/monic/X^n/power of a linear factor, "
                        "deg M in 1..16 (48 thorough), dk in [0, deg M); P = A/B mod M inside the uniqueness range (also with a common factor), zero, constant, deg >= deg M, "
                        "multiple of M, sharing a factor with M, deg = dk, random; exhaustive block over F_2 and F_3.  non-trivial = m > 3 resp. deg M >= 2; distinct = (variant,args)" % POLY_PRIMES)
+    # floors on what was actually compared in this run: a run that stays below them because of tooling problems (time-outs,
+    # a model driver that did not build) is INCONCLUSIVE for the missing part and says so - it is never counted as a pass
+    fl = {"quick": {"oracle integer": 50000, "oracle polynomial": 15000, "correspondence": 65000, "theorems": 37},
+          "thorough": {"oracle integer": 500000, "oracle polynomial": 300000, "correspondence": 800000, "theorems": 37}}[tier]
+    got = {"oracle integer": norac["integer"], "oracle polynomial": norac["polynomial"], "correspondence": ncorr,
+           "theorems": chk.cov.get("discharged", 0)}
+    chk.cov["floor"] = {"required": fl, "compared": got}
+    if not replay:
+        missed = ["%s: %d < %d" % (k, got[k], fl[k]) for k in sorted(fl) if got[k] < fl[k]]
+        if missed:
+            chk.cov["floor_missed"] = missed
+            inconclusive.append("below the floor: " + "; ".join(missed))
+    if inconclusive:
+        chk.cov["inconclusive"] = inconclusive
+        for x in inconclusive:
+            chk.notes.append("INCONCLUSIVE: " + x)
+        print("INCONCLUSIVE property=C11 " + " | ".join(inconclusive))
     chk.cov["traces_validated_against_impl"] = ncorr
+    chk.cov["poly_moduli_prime"] = all(is_probable_prime(q) for q in POLY_PRIMES + [g[0] for g in POLY_GRID])
+    if not chk.cov["poly_moduli_prime"]:
+        chk.broke("a modulus of the polynomial run is not prime: C11_fp_ratrecon_sound does not apply to it")
     chk.cov["variants"] = len(VARIANTS) + len(POLY_FORMS)
     chk.cov["call_forms"] = dict((k[8:], n) for k, n in sorted(stats.items()) if k.startswith("variant/"))
     chk.cov["distribution"] = dict(sorted(stats.items()))
